@@ -356,8 +356,27 @@ class AdnlWorld(HistoryWorld):
             dst = (src + 1) % n
         payload = bytes.fromhex(op['payload'])
         ch = st.chan[(src, dst)]
-        ok, pkt = call(ch.encrypt, payload)
         klass = self._idclass(st, src, dst)
+        if op['mid'] % 3 == 1:
+            # the sender hands over a mutable buffer it keeps (for retransmission): a bytearray is a bytes-like plaintext, and
+            # encrypting it must neither change it nor give another packet than for the same bytes
+            buf = bytearray(payload)
+            ok, pkt = call(ch.encrypt, buf)
+            ctx.probe('plaintext-in-a-mutable-buffer')
+            if ok and bytes(buf) != payload:
+                self.V(ctx, 'argument-changed', 'encrypt', 'bytearray-plaintext', 'AdnlChannel.encrypt changed the plaintext buffer it was given')
+                return
+            if ok:
+                ok2, pkt2 = call(ch.encrypt, buf)
+                if not ok2 or bytes(pkt2[32:64]) != hashlib.sha256(payload).digest():
+                    self.V(ctx, 'checksum-field', 'encrypt', 'bytearray-plaintext-sent-again', 'the same buffer encrypted again does not carry the SHA-256 of the message')
+                    return
+                pkt = bytes(pkt)
+        else:
+            ok, pkt = call(ch.encrypt, payload)
+        if not ok:
+            if op['mid'] % 3 == 1:
+                ok, pkt = call(ch.encrypt, payload)      # a library may insist on bytes
         if not ok:
             self.V(ctx, 'encrypt-fails', 'encrypt', klass, 'AdnlChannel.encrypt raised %r' % (pkt,))
             return
